@@ -131,6 +131,10 @@ func genC03(g *Rng, tier string, emit func(Op)) {
 	}
 	emit(declSk(ka))
 	for i := 0; i < 2; i++ {
+		emit(Op{"op": "list-reverify-after-merge", "class": "reverified-after-response-overwritten", "label": "reject", "nomodel": true, "fkey": "C03/reverify-after-merge",
+			"key": ka.id, "s1": hx(randSecret(g)), "s2": hx(randSecret(g)), "issig": i == 1})
+	}
+	for i := 0; i < 2; i++ {
 		emit(Op{"op": "list-shared-number", "class": "shared-number-object", "label": "reject", "nomodel": true, "fkey": "C03/shared-number-object",
 			"key": ka.id, "s1": hx(randSecret(g)), "s2": hx(randSecret(g)), "issig": i == 1})
 	}
@@ -602,4 +606,39 @@ func ownChallengeMemberOps(g *Rng, kp *KeyPair, ctx, nonce *big.Int, issig bool,
 		}
 	}
 	return ops
+}
+
+func init() {
+	// a list over two different secrets is verified (refused), then the second member's secret-key
+	// response is overwritten with the first one's through the library's own MergeProofP, and the
+	// SAME objects are verified again: nothing remembered from the first verification may make the
+	// second succeed
+	executors["list-reverify-after-merge"] = func(o Op) string {
+		kp := execKey(o.str("key"))
+		pk := kp.pk
+		c1 := issueCred(kp, unhx(o["s1"]), []*big.Int{bi(11), bi(12)})
+		c2 := issueCred(kp, unhx(o["s2"]), []*big.Int{bi(21), bi(22)})
+		b1, err1 := c1.CreateDisclosureProofBuilder([]int{1}, nil, false)
+		b2, err2 := c2.CreateDisclosureProofBuilder([]int{2}, nil, false)
+		if err1 != nil || err2 != nil {
+			return "builder-err"
+		}
+		ctx, nonce, issig := bi(1), bi(78), o.boolean("issig")
+		pl, err := gabi.ProofBuilderList{b1, b2}.BuildProofList(ctx, nonce, issig)
+		if err != nil {
+			return "build-err"
+		}
+		keys := []*gabikeysPublicKey{pk, pk}
+		if pl.Verify(keys, ctx, nonce, issig, nil) {
+			return "accept-first"
+		}
+		p1, p2 := pl[0].(*gabi.ProofD), pl[1].(*gabi.ProofD)
+		p2.MergeProofP(&gabi.ProofP{C: new(big.Int).Set(p2.C), SResponse: new(big.Int).Set(p1.AResponses[0])}, pk)
+		for _, kss := range [][]string{nil, {"ks", "ks"}} {
+			if pl.Verify(keys, ctx, nonce, issig, kss) {
+				return "accept-after-merge"
+			}
+		}
+		return "reject"
+	}
 }
